@@ -42,6 +42,7 @@ ASSUMPTIONS = ['vt/codec.py encoders define "well-formed file" for each format',
                'TIGER-XML optional attributes (lemma, morph) absent: None or '
                '-- both accepted']
 WATCHDOG = {'quick': 900, 'thorough': 5400}
+LONG_SENTENCES = 3      # floor for the stratum the runner adds (gen.maybe_long)
 MIN = {'quick': {'distinct': 20000,
                  'hooks': {'treeinput.export': 800, 'treeinput.brackets': 20000,
                            'treeinput.discobrackets': 400,
@@ -204,6 +205,8 @@ def make_bank(rng, fmt, decorated, sep, quick=True, unispace=True, big=False):
     for j in range(k):
         n = rng.choice([1, 1, 2, 3, 5, 8]) if rng.random() < 0.6 \
             else rng.randint(1, 14)
+        if not big:
+            n = gen.maybe_long(rng, n, 0.003)
         t = gen.tree(rng, n, pools, max_arity=rng.choice([2, 3, 5, 9]),
                      p_unary=rng.choice([0, 0.15, 0.3]),
                      moves=0 if cont else rng.choice([0, 0, 1, 2, 4]),
